@@ -375,6 +375,8 @@ def _short(x, n=1500):
 def driver_request(st, dflt, host):
     """the "full" request of the Lean driver for one step, or None when the operation is not modelled"""
     op = st.op['op']
+    if op == 'InvokeMethod':
+        return method_request(st, dflt)
     if op not in c04spec.SPEC:
         return None
     T = cimproto.Tables()
@@ -396,6 +398,49 @@ def driver_request(st, dflt, host):
         req['rsptree'] = cimproto.tt_to_json(rtt)
     req['codec'] = T.to_json()
     return req
+
+
+def method_request(st, dflt):
+    """the "meth" request of the Lean driver: the METHODCALL document of an InvokeMethod call"""
+    import pywbem
+    T = cimproto.Tables()
+    kw = st.kw
+    if not isinstance(kw.get('MethodName'), str):
+        return None
+    args = []
+    try:
+        for p in (kw.get('Params') or []):
+            if isinstance(p, pywbem.CIMParameter):
+                args.append({'name': cimproto.cps(p.name), 'val': cimproto.val_to_json(p.value, T),
+                             'decl': [cimproto.cps(p.type), cimproto.ocps(p.embedded_object)]})
+            else:
+                args.append({'name': cimproto.cps(p[0]), 'val': cimproto.val_to_json(p[1], T), 'decl': None})
+        for n, vs in st.op.get('kwparams', {}).items():
+            args.append({'name': cimproto.cps(n), 'val': cimproto.val_to_json(O.build_mval(vs), T), 'decl': None})
+    except TypeError:
+        return None
+    return {'op': 'meth', 'dflt': cimproto.ocps(dflt), 'name': cimproto.cps(kw['MethodName']),
+            'obj': O.arg_json(kw.get('ObjectName'), T), 'args': args, 'codec': T.to_json()}
+
+
+def compare_method(run, st, ans, case):
+    w = st.wire
+    if not st.exchanges:
+        if 'exc' not in ans or ans['exc'] != w.get('exc'):
+            run.disagree(case, ans if 'exc' in ans else 'request built', _exc_only(w) or 'ok',
+                         'InvokeMethod: call rejected locally')
+        return
+    r = st.exchanges[0]
+    if 'exc' in ans:
+        run.disagree(case, ans, 'request sent', 'InvokeMethod: model rejects the call')
+        return
+    body = r['body'][len(XMLDECL):] if r['body'].startswith(XMLDECL) else r['body']
+    mx = common.from_cps(ans['xml'])
+    if mx != body.decode('utf-8'):
+        run.disagree(case, mx[:1500], body.decode('utf-8')[:1500], 'InvokeMethod: request bytes')
+    rt = cimproto.tt_to_json(r['tt'])
+    if _sort_attrs(ans['wire']) != rt:
+        run.disagree(case, _short(_sort_attrs(ans['wire'])), _short(rt), 'InvokeMethod: request tupletree (wireTree)')
 
 
 def _sort_attrs(t):
@@ -497,6 +542,18 @@ def run_scripted(run, n, out):
                                                  'script_result': res}, True))
 
 
+def run_invoke(run, n, out):
+    """single InvokeMethod calls (static / instance methods, every parameter type, NULL items, CIMParameter / tuple /
+    keyword forms) against the echo method provider"""
+    rng = run.rng
+    for _ in range(n):
+        sizes = {'root/a': 3, 'root/b': 2}
+        dflt = rng.choice(DEFAULTS)
+        op = c04gen.gen_invoke(rng, sizes)
+        steps = O.run_history(sizes, 1, [op], dflt)
+        out.append((steps[0], dflt, 'srv.host', hist_case(sizes, 1, dflt, [op], 0), False))
+
+
 PROBES = [
     # CreateClass whose qualifiers leave the flavors None, then read it back
     {'name': 'class_flavors_none', 'sizes': {'root/a': 1, 'root/b': 0}, 'dflt': 'root/a', 'ops': [
@@ -532,7 +589,9 @@ def run(run):
                 'every optional parameter None/True/False/values; Open..Pull..Close sequences with own, foreign, stale '
                 'contexts; type-directed random objects (cimgen) as parameters; (b) near-miss calls with one wrongly typed '
                 'argument; (c) scripted servers returning arbitrary type-directed result lists / errors for every '
-                'operation; (d) probes for the recorded findings. One K case = one call (6 comparisons: request bytes, '
+                'operation; (d) InvokeMethod calls with parameters of every type (arrays with NULL items, references, '
+                'embedded instances; CIMParameter / tuple / keyword forms) against an echo method provider; (e) probes for '
+                'the recorded findings. One K case = one call (6 comparisons: request bytes, '
                 'request tree, server view, response bytes, client result, whole exchange); non-trivial = a request was '
                 'sent; distinct = distinct (operation, arguments, result) JSON')
     run.assumptions += [
@@ -550,6 +609,7 @@ def run(run):
     run_histories(run, 600 if thorough else 60, 12, out)
     run_nearmiss(run, 2000 if thorough else 200, out)
     run_scripted(run, 8000 if thorough else 900, out)
+    run_invoke(run, 1500 if thorough else 150, out)
     reqs, idx = [{'op': 'sig'}], []
     for k, (st, dflt, host, case, scripted) in enumerate(out):
         rq = driver_request(st, dflt, st.host)
@@ -571,7 +631,10 @@ def run(run):
         for a, s in st.op['args'].items():
             if a in ('ClassName', 'InstanceName', 'ObjectName', 'namespace'):
                 run.count('shape:%s=%s' % (a, arg_shape(s) if a != 'namespace' else (s.get('v') or 'None')))
-        if k in amap:
+        if k in amap and op == 'InvokeMethod':
+            run.count('K:invokemethod_request')
+            compare_method(run, st, amap[k], case)
+        elif k in amap:
             compare_step(run, st, amap[k], case)
         oracle_step(run, st, dflt, case, scripted)
 
@@ -597,6 +660,7 @@ def search(run):
         run_histories(run, 20, 14, out)
         run_nearmiss(run, 60, out)
         run_scripted(run, 300, out)
+        run_invoke(run, 60, out)
         for st, dflt, host, case, scripted in out:
             oracle_step(run, st, dflt, case, scripted)
         new = [v for v in run.violations[before:] if not any(common.matches(f, PROP, v['sig']) for f in known)]
